@@ -335,7 +335,7 @@ directive(void)
 		scan(&tok);
 		tokencheck(&tok, TNUMBER, "after #line");
 line:
-		newloc.line = strtoull(tok.lit, NULL, 0);
+		newloc.line = strtoull(tok.lit, NULL, 10);
 		newloc.col = 1;
 		scan(&tok);
 		newloc.file = tok.loc.file;
